@@ -59,16 +59,18 @@ type Exec struct {
 	freshN     int
 	objN       int
 
-	globals    map[string]*Object
-	ginit      map[*ssa.Package]*globalInit
-	mutGlobals map[*ssa.Global]bool
-	globalRows map[*ssa.Global]int64 // heap rows of package-level arrays of the module
-	inInit     bool
-	initHeaps  map[string]*Term
-	initFacts  []*Term
-	initMem    map[*Object]Value
-	initAlloc  int64
-	initBoxes  map[int64]Value
+	globals      map[string]*Object
+	ginit        map[*ssa.Package]*globalInit
+	mutGlobals   map[*ssa.Global]bool
+	closureAlias map[*ssa.Function]string // anonymous functions whose contract is written under another ordinal (AlignClosures)
+	AliasNotes   []string
+	globalRows   map[*ssa.Global]int64 // heap rows of package-level arrays of the module
+	inInit       bool
+	initHeaps    map[string]*Term
+	initFacts    []*Term
+	initMem      map[*Object]Value
+	initAlloc    int64
+	initBoxes    map[int64]Value
 
 	Findings map[string]*Finding
 	regexps  map[int64]string
@@ -157,6 +159,9 @@ func (ex *Exec) newObject(name string, t types.Type, fresh bool) *Object {
 func (ex *Exec) FuncKey(fn *ssa.Function) string {
 	if o := fn.Origin(); o != nil {
 		fn = o
+	}
+	if k, ok := ex.closureAlias[fn]; ok {
+		return k
 	}
 	root := fn
 	for root.Parent() != nil {
